@@ -121,14 +121,15 @@ theorem chain_blocks (cfg : Cfg) (rx : RxBundle) (now : Nat) (ks : List StepKind
 theorem recv_cases (cfg : Cfg) (st : St) (now : Nat) (rx : RxBundle) :
     recvBundle cfg st now rx = (st, []) ∨
     (identOf rx.primary rx.blocks ∉ st.seen ∧ ∃ c : Ctr, c.ident = identOf rx.primary rx.blocks ∧
-      recvBundle cfg st now rx = dispose { st with seen := identOf rx.primary rx.blocks :: st.seen } c) := by
+      c.blocks = rx.blocks ∧ recvBundle cfg st now rx = dispose { st with seen := identOf rx.primary rx.blocks :: st.seen } c) := by
   by_cases h1 : rx.crcOk = true
   · by_cases h2 : rx.primary.src = cfg.nodeId
     · exact Or.inl (recv_own_source cfg st now rx h2)
     · by_cases h3 : identOf rx.primary rx.blocks ∈ st.seen
       · exact Or.inl (recv_repeat cfg st now rx h3)
-      · refine Or.inr ⟨h3, _, ?_, recv_accepted cfg st now rx ⟨h1, h2, h3⟩⟩
-        simp only [Ctr.ident, chain_primary, chain_blocks]; rfl
+      · refine Or.inr ⟨h3, _, ?_, ?_, recv_accepted cfg st now rx ⟨h1, h2, h3⟩⟩
+        · simp only [Ctr.ident, chain_primary, chain_blocks]; rfl
+        · simp only [chain_blocks]; rfl
   · exact Or.inl (recv_bad_crc cfg st now rx (by simpa using h1))
 
 theorem timestamp_seen (st : St) (now : Nat) : (timestamp st now).1.seen = st.seen := by
@@ -230,7 +231,7 @@ theorem step_dq (cfg : Cfg) (st : St) (e : Ev) (id : Ident) (x : Effect) (hx : i
     simp only [step, clRecv]
     split
     · rcases hx with rfl | rfl <;> simp
-    · rcases recv_cases cfg st now rx with h | ⟨hns, c, hc, h⟩
+    · rcases recv_cases cfg st now rx with h | ⟨hns, c, hc, _, h⟩
       · rw [h]; simp
       · rw [h, dispose_eff, dispose_seen, hc]
         have hf := finishEff_count c id x hx
